@@ -196,7 +196,16 @@ def run_trace(tid, n, cls, mode, hidden_f, objs, rng, length, with_gaps, ops_wei
             since_compute += 1
         elif op == "reset":
             if script is None:
-                ks = [c for c in expl if rng.random() < 0.4]
+                style = rng.random()
+                if style < 0.25 and n >= 3:
+                    # late game: everything is known but a few SMALL coalitions -- ids that exist for every player count, so that in an
+                    # interleaved run games of different sizes have the same set of unknown ids (seed C03-e: a memo keyed without n)
+                    hide = set(rng.sample([3, 5, 6], rng.randint(1, 3)))
+                    ks = [c for c in expl if c not in hide]
+                elif style < 0.4:
+                    ks = [c for c in expl if rng.random() < 0.9]
+                else:
+                    ks = [c for c in expl if rng.random() < 0.4]
                 cs = minimal + ks
                 rng.shuffle(cs)
             else:
